@@ -241,6 +241,13 @@ def run(ctx):
                  "", wit and b_.describe_path(wit))
     # `has no unread reply pending`: the callers stop reading when recv says no more is to come - so recv must not hand a piece out with that flag
     # false anywhere but at the end of a reply (clauses shared with C03-R4)
+    # `not inside a transaction block`: the release gate and the ROLLBACK of check-in go by Server.in_transaction - which is the ReadyForQuery status, cleared for 'I' only
+    from common import ready_for_query_status_findings
+    rfq = ready_for_query_status_findings(F)
+    if rfq is None:
+        r1.missing("the ReadyForQuery status switch of Server::recv")
+    for key_, ok_, okm_, fm_ in rfq or []:
+        r1.check(ok_, key_, okm_, fm_)
     from common import recv_handout_findings
     for key_, ok_, okm_, fm_ in recv_handout_findings(F):
         if ok_ is None:
